@@ -215,6 +215,156 @@ func (fr *Frame) preludeCall(st *State, name string, fn *ssa.Function, args []Va
 			ex.unsupported("distinctRefs on non-reference values")
 		}
 		return Val{T: Or(Eq(x, TNull), Eq(y, TNull), Neq(x, y))}, true
+	case "__countRecv":
+		// countRecv(ch, lo, hi, pred): how many of the values received from ch with index in [lo, hi) satisfy pred.
+		// An uninterpreted function of (receive log, lo, hi, whatever state pred reads), axiomatised by: empty range;
+		// one-step unfolding at the upper end (only for the upper bounds that occur in the specification, marked by
+		// cnt_mark, so that the axiom cannot unfold for ever); a later receive does not change the count of an earlier
+		// range; 0 <= count <= length.
+		clo := args[3].Clo
+		if clo == nil || len(clo.Fn.Params) != 1 {
+			ex.unsupported("countRecv needs a literal one-argument predicate")
+		}
+		elem := chanElem(cc.Args[0].Type())
+		es := ex.ctx.SortOf(elem)
+		logSort := ArraySort(SInt, es)
+		logArr := Select(ex.get(st, "ChanRecv_"+typeKey(elem), ArraySort(SRef, logSort)), args[0].T)
+		xb := Bound{Name: ex.boundName("x"), Sort: es}
+		xv := V(xb.Name, es)
+		// captured values become arguments of the counting function (so that the same predicate over provably equal
+		// captured values is the same function): evaluate the body over placeholders for them
+		capReal := map[string]*Term{}
+		clo2 := &Closure{Fn: clo.Fn, Bind: append([]Val(nil), clo.Bind...)}
+		for i, bv := range clo2.Bind {
+			if bv.T != nil && bv.L == nil && bv.Clo == nil && len(bv.Tup) == 0 {
+				ph := fmt.Sprintf("cap%d!b%d", i, 0)
+				capReal[ph] = bv.T
+				clo2.Bind[i] = Val{T: V(ph, bv.T.Sort)}
+			}
+		}
+		body := fr.ghostApply(st, clo2, []Val{{T: xv}})
+		var extra []*Term
+		var bs []Bound
+		k := 0
+		// maximal subterms that do not mention x but depend on the state (heap placeholders, captured values, outer
+		// bound variables) are abstracted into arguments, so that the function's identity is the shape of the
+		// predicate in x and not the particular terms the state is read through
+		holes := map[string]*Term{}
+		var mentions func(t *Term, pred func(string) bool) bool
+		mentions = func(t *Term, pred func(string) bool) bool {
+			lv := map[string]string{}
+			FreeLeaves(t, lv)
+			for n := range lv {
+				if pred(n) {
+					return true
+				}
+			}
+			return false
+		}
+		isState := func(n string) bool {
+			return strings.HasPrefix(n, "CUR.") || strings.HasPrefix(n, "OLD.") || strings.Contains(n, "!b")
+		}
+		var abstract func(t *Term) *Term
+		abstract = func(t *Term) *Term {
+			if !mentions(t, func(n string) bool { return n == xb.Name }) {
+				if t.Sort != SBool && mentions(t, isState) && len(t.Bound) == 0 {
+					key := t.String()
+					if h, ok := holes[key]; ok {
+						return h
+					}
+					bn := fmt.Sprintf("a%d!cnt", k)
+					k++
+					bs = append(bs, Bound{Name: bn, Sort: t.Sort})
+					h := V(bn, t.Sort)
+					holes[key] = h
+					real := t
+					if len(capReal) > 0 {
+						real = Subst(t, capReal)
+					}
+					extra = append(extra, real)
+					return h
+				}
+				return t
+			}
+			if len(t.Args) == 0 || len(t.Bound) > 0 {
+				return t
+			}
+			na := make([]*Term, len(t.Args))
+			changed := false
+			for i, a := range t.Args {
+				na[i] = abstract(a)
+				if na[i] != a {
+					changed = true
+				}
+			}
+			if !changed {
+				return t
+			}
+			return &Term{Op: t.Op, Sort: t.Sort, Args: na}
+		}
+		body = abstract(body)
+		leaves := map[string]string{}
+		FreeLeaves(body, leaves)
+		sub := map[string]*Term{}
+		for _, name := range sortedKeys(leaves) {
+			if name == xb.Name || strings.HasSuffix(name, "!cnt") {
+				continue
+			}
+			if strings.HasPrefix(name, "CUR.") || strings.HasPrefix(name, "OLD.") || strings.Contains(name, "!b") {
+				bn := fmt.Sprintf("a%d!cnt", k)
+				k++
+				bs = append(bs, Bound{Name: bn, Sort: leaves[name]})
+				sub[name] = V(bn, leaves[name])
+				if real, isCap := capReal[name]; isCap {
+					extra = append(extra, real)
+				} else {
+					extra = append(extra, V(name, leaves[name]))
+				}
+			}
+		}
+		lg, lo, hi := V("log!cnt", logSort), V("lo!cnt", SInt), V("hi!cnt", SInt)
+		canon := Subst(body, sub)
+		uf := fmt.Sprintf("cnt_%s_%x", sanitize(clo.Fn.Name()), hashString(canon.String()+"|"+xb.Name))
+		// the canonical body mentions the bound variable x by this call's name: normalise it
+		canonX := Subst(canon, map[string]*Term{xb.Name: Select(lg, Sub(hi, IntLit(1)))})
+		// named by the predicate's meaning (its term over x and the abstracted state), not by the closure that wrote it:
+		// the same predicate in an invariant and in a postcondition is the same counting function
+		uf = fmt.Sprintf("cnt_%s_%x", sanitize(typeKey(elem)), hashString(Subst(canon, map[string]*Term{xb.Name: V("x!cnt", es)}).String()))
+		mkApp := func(l, a, b *Term, ex2 []*Term) *Term {
+			return ex.ctx.UF(uf, SInt, append([]*Term{l, a, b}, ex2...)...)
+		}
+		_, seen := ex.ctx.declared[uf]
+		var boundExtra []*Term
+		for _, b := range bs {
+			boundExtra = append(boundExtra, V(b.Name, b.Sort))
+		}
+		app := mkApp(logArr, args[1].T, args[2].T, extra)
+		ex.ctx.Fun("cnt_mark", []string{SInt}, SInt)
+		if !seen {
+			all := append([]Bound{{"log!cnt", logSort}, {"lo!cnt", SInt}, {"hi!cnt", SInt}}, bs...)
+			c := mkApp(lg, lo, hi, boundExtra)
+			// empty range, bounds
+			ex.axioms = append(ex.axioms, &Term{Op: "forall", Sort: SBool, Bound: all, Pat: []*Term{c},
+				Args: []*Term{And(Implies(Le(hi, lo), Eq(c, IntLit(0))), Le(IntLit(0), c), Implies(Le(lo, hi), Le(c, Sub(hi, lo))))}})
+			// one step at the upper end, for marked upper ends only
+			step := Eq(c, Add(mkApp(lg, lo, Sub(hi, IntLit(1)), boundExtra), Ite(canonX, IntLit(1), IntLit(0))))
+			ex.axioms = append(ex.axioms, &Term{Op: "forall", Sort: SBool, Bound: all, Pat: []*Term{c, App("cnt_mark", SInt, hi)},
+				Args: []*Term{Implies(Lt(lo, hi), step)}})
+			// a receive at or beyond the upper end does not matter
+			nb, vb := Bound{"n!cnt", SInt}, Bound{"v!cnt", es}
+			st2 := Store(lg, V("n!cnt", SInt), V("v!cnt", es))
+			c2 := mkApp(st2, lo, hi, boundExtra)
+			ex.axioms = append(ex.axioms, &Term{Op: "forall", Sort: SBool, Bound: append(append([]Bound{}, all...), nb, vb), Pat: []*Term{c2},
+				Args: []*Term{Implies(Ge(V("n!cnt", SInt), hi), Eq(c2, c))}})
+			if !ex.cntMarkAx {
+				ex.cntMarkAx = true
+				n := V("n!cm", SInt)
+				m := App("cnt_mark", SInt, n)
+				ex.axioms = append(ex.axioms, &Term{Op: "forall", Sort: SBool, Bound: []Bound{{"n!cm", SInt}}, Pat: []*Term{m}, Args: []*Term{Eq(m, IntLit(0))}})
+			}
+			ex.trusted["countRecv: counting function axiomatised by empty range, one-step unfolding, frame over later receives (standard recursive definition)"] = true
+		}
+		return Val{T: Add(app, App("cnt_mark", SInt, args[2].T))}, true
 	case "__witness":
 		// always true; its only purpose is to put the term x into the formula so that the solver's
 		// E-matching has something to instantiate an existential's bound variable with
@@ -316,6 +466,8 @@ func (fr *Frame) preludeCall(st *State, name string, fn *ssa.Function, args []Va
 		return Val{T: val}, true
 	case "__callArgOf":
 		return Val{T: Select(ex.get(st, "CallArg_"+sanitize(constString(cc.Args[0])), ArraySort(SInt, SRef)), args[1].T)}, true
+	case "__callResOf":
+		return Val{T: Select(ex.get(st, "CallRes_"+sanitize(constString(cc.Args[0])), ArraySort(SInt, SRef)), args[1].T)}, true
 	case "__callNOf":
 		return Val{T: ex.get(st, "CallN_"+sanitize(constString(cc.Args[0])), SInt)}, true
 	case "__callRetOf":
@@ -468,6 +620,19 @@ func (fr *Frame) applyContract(st *State, fn *ssa.Function, c *LoadedContract, a
 			r := Bound{Name: ex.boundName("r"), Sort: SRef}
 			ex.assume(st, Forall([]Bound{r}, Implies(Select(old, V(r.Name, SRef)), Select(nw, V(r.Name, SRef)))))
 		}
+		if cn := logCounterOf(comp); cn != "" {
+			// ghost logs are append-only: whatever the callee recorded, the entries that existed before the call are
+			// still there, and a counter never goes down
+			if cn == comp {
+				ex.assume(st, Ge(nw, old))
+			} else if k, _ := arrayParts(sort); k == SInt {
+				n0 := ex.get(pre, cn, SInt)
+				i := Bound{Name: ex.boundName("i"), Sort: SInt}
+				iv := V(i.Name, SInt)
+				ex.assume(st, &Term{Op: "forall", Sort: SBool, Bound: []Bound{i}, Pat: []*Term{Select(nw, iv)},
+					Args: []*Term{Implies(Lt(iv, n0), Eq(Select(nw, iv), Select(old, iv)))}})
+			}
+		}
 		if lr, ok := ex.lockRelyOfComp(comp); ok && sort == ArraySort(SRef, SInt) {
 			// a lock-protected field with a declared rely: whatever the callee and the other threads did to it
 			// respected the relation (each critical section is checked against it where it is verified)
@@ -519,6 +684,10 @@ func (fr *Frame) applyContract(st *State, fn *ssa.Function, c *LoadedContract, a
 			ret = Eq(results[k].T, V("iface_nil", SIfc))
 		}
 		ex.set(st, "CallRet"+sfx, Store(ex.get(st, "CallRet"+sfx, ArraySort(SInt, SBool)), n, ret))
+		if len(results) > 0 && results[0].T != nil && results[0].T.Sort == SRef {
+			// a reference-typed first result (the object the callee hands back)
+			ex.set(st, "CallRes"+sfx, Store(ex.get(st, "CallRes"+sfx, ArraySort(SInt, SRef)), n, results[0].T))
+		}
 		// the first reference-typed argument after the receiver (a map, pointer or channel handed to the callee)
 		first := 0
 		if fn.Signature.Recv() != nil {
@@ -798,4 +967,35 @@ func (fr *Frame) loopMod(li *loopInfo, st *State) map[string]bool {
 	li.mod = mod
 	li.modDone = true
 	return mod
+}
+
+// logCounterOf names the counter component of an append-only ghost log component ("" if comp is not one).
+func logCounterOf(comp string) string {
+	for _, p := range []string{"CallFn", "CallRet", "CallArg", "CallRes"} {
+		if comp == p {
+			return "CallN"
+		}
+		if strings.HasPrefix(comp, p+"_") {
+			return "CallN_" + strings.TrimPrefix(comp, p+"_")
+		}
+	}
+	if comp == "CallN" || strings.HasPrefix(comp, "CallN_") || strings.HasPrefix(comp, "LogN_") {
+		return comp
+	}
+	if strings.HasPrefix(comp, "Log_") {
+		name := strings.TrimPrefix(comp, "Log_")
+		// companion logs share the counter of their main log (packetlen -> packets, queuedlen -> queued, ...)
+		switch name {
+		case "packetlen":
+			name = "packets"
+		case "queuedlen":
+			name = "queued"
+		case "ipcsenterr", "ipcsentobj":
+			name = "ipcsent"
+		case "writtento":
+			name = "written"
+		}
+		return "LogN_" + name
+	}
+	return ""
 }
